@@ -24,10 +24,11 @@ func Main(args []string) int {
 	if *wait > 0 {
 		waitTicks = *wait
 	}
-	_, _ = seed, runs
 	switch args[0] {
 	case "monitor-replay":
 		return monitorReplay(*scripts, *out, *from, *to)
+	case "monitor-free":
+		return monitorFree(*out, *seed, *runs)
 	}
 	fmt.Fprintln(os.Stderr, "unknown sub-command", args[0])
 	return 2
